@@ -262,7 +262,8 @@ func (cw *ccWorld) randBegin(c *Ctx, ch string) swBeginArgs {
 	case r < 86 && ch == "vt":
 		b.tok = "TT_G1"
 	case r < 91:
-		b.tok = "XX"
+		// a token that is neither side of the swap; a name spelled in another letter case is such a token
+		b.tok = []string{"XX", strings.ToLower(own), strings.ToLower(other), "Tt"}[rng.Intn(4)]
 	default:
 		b.tok = own
 		b.to = []string{own, "XX"}[rng.Intn(2)]
@@ -278,13 +279,16 @@ func (cw *ccWorld) randBegin(c *Ctx, ch string) swBeginArgs {
 
 func (cw *ccWorld) beginTerm(ch string, b swBeginArgs) string {
 	s, g := cw.tokN(b.tok)
+	if b.tok != strings.ToUpper(b.tok) {
+		s, g = 9, 0 // names are compared as written
+	}
 	direct := strings.SplitN(b.tok, "_", 2)[0] == strings.ToUpper(ch)
 	return fmt.Sprintf("%d %d %d %d %d %s %d", cw.users[b.u].N(), cw.idN(b.id), s, g, cw.destNum(b.to, direct), coqZi(b.amt), swKeyN(b.key))
 }
 
 func genC08(c *Ctx) error {
 	c.ShardSize = 20
-	c.Notes["rule"] = "two deployed chaincodes (TT, VT), two users. (one) arbitrary step sequences on one channel: swapBegin through a batch and through executeTasks (ids from a pool of three, so that ids collide), direct / reverse / grouped / foreign-token / wrong-channel / over-funded begins, robot answers with arbitrary records (also onto occupied ids), robot completions and user completions with right and wrong keys, cancels; every step observed (error class, key event, all balances, all swap records). (two) interleavings of user begins on both channels with the robot (answer once, close the origin with the published key, per-swap checkpoint) and platform cancels in the documented order; completions attempted at any time with any key; half of the runs are drained at the end (everything completed or cancelled) so that the closed-state equalities are exercised. Non-trivial: >= 2 successful and >= 2 rejected steps / >= 3 successful robot or completion steps."
+	c.Notes["rule"] = "two deployed chaincodes (TT, VT), two users. (one) arbitrary step sequences on one channel: swapBegin through a batch and through executeTasks (ids from a pool of three, so that ids collide), direct / reverse / grouped / foreign-token (also the own or the other token spelled in another letter case) / wrong-channel / over-funded begins, robot answers with arbitrary records (also onto occupied ids), robot completions and user completions with right and wrong keys, cancels; every step observed (error class, key event, all balances, all swap records). (two) interleavings of user begins on both channels with the robot (answer once, close the origin with the published key, per-swap checkpoint) and platform cancels in the documented order; completions attempted at any time with any key; half of the runs are drained at the end (everything completed or cancelled) so that the closed-state equalities are exercised. Non-trivial: >= 2 successful and >= 2 rejected steps / >= 3 successful robot or completion steps."
 	n := c.N(120, 2500)
 	for i := 0; i < n; i++ {
 		if i%2 == 0 {
